@@ -319,6 +319,529 @@ def relation(a, b):
     return 'error-class'
 
 
+# ------------------------------------------------------------------ long inputs / cache pressure
+# The capacity of the memo cache is derived from the number of LINES of the input and from perlinememos, so what a tiny
+# cache does to a parse only shows on inputs with thousands of tokens, written on ONE line and on MANY lines.  This family
+# takes the grammar families above (layered left-recursive expression grammars -- including layers whose rule uses its own
+# left operand in two alternatives that share a prefix, `e: e '?' m ':' m | e '?' m | next` --, statement lists with retry
+# shapes, the nested family, random retry grammars; bracketed lists and parentheses nested within the recursion limit) and
+# parses inputs of 1 500 - 6 000 tokens under the cache configurations.  Oracle unchanged: same outcome as the baseline.
+LONG_TOKENS_PER_LINE = [2, 4, 3, 2, 6, 1]
+LONG_BINOPS = ['+', '*', '-', '/', '|', '%']
+LONG_TERNOPS = [('?', ':'), ('!', '^'), ('<', '>')]
+LONG_LAYER_KINDS = ['direct', 'both', 'ternary', 'twoops', 'aliased2']
+# (form, position of the big operand): long form `c ? a : b`, short form `c ? a`
+LONG_BIG_FORMS = [('short', 1), ('long', 1), ('short', 0), ('long', 2), ('long', 0)]
+LONG_ROTATING = [
+    ('noprune', {'prune_memos_on_cut': False}),
+    ('trace', {'trace': True, 'colorize': False}),
+    ('all', {'perlinememos': 0.01, 'prune_memos_on_cut': False, 'trace': True, 'parseinfo': True}),
+    ('plm_1+noprune', {'perlinememos': 1, 'prune_memos_on_cut': False}),
+    ('trace_color', {'trace': True, 'colorize': True}),
+    ('plm_0.01+noprune', {'perlinememos': 0.01, 'prune_memos_on_cut': False}),
+]
+N_LONG = {'quick': 2, 'thorough': 4}   # grammars of the long family per shard
+
+
+class LongExpr:
+    """layered left-recursive expression grammar + sentences of a requested number of tokens"""
+
+    def __init__(self, rng, force_ternary):
+        self.nl = rng.choice([1, 2, 2, 3])
+        kinds = [rng.choice(LONG_LAYER_KINDS) for _ in range(self.nl)]
+        if force_ternary and 'ternary' not in kinds:
+            kinds[rng.randrange(self.nl)] = 'ternary'
+        bops = rng.sample(LONG_BINOPS, 2 * self.nl)
+        tops = rng.sample(LONG_TERNOPS, len(LONG_TERNOPS))
+        self.layers = []
+        for i, k in enumerate(kinds):
+            self.layers.append({'kind': k, 'op': bops[2 * i], 'op2': bops[2 * i + 1], 'tern': tops[i % len(tops)],
+                                'mid': rng.choice(['self', 'self', 'next']), 'cut': rng.random() < 0.2})
+        self.parens = rng.random() < 0.75
+        self.list_style = rng.choice(['closure', 'closure', 'gather', 'pclosure'])
+        self.list_cut = rng.random() < 0.25
+        self.eof = rng.random() < 0.8
+
+    def describe(self):
+        return '/'.join(l['kind'] + (':' + l['mid'] if l['kind'] == 'ternary' else '') for l in self.layers)
+
+    def grammar(self):
+        C, T = L.Call, L.Tok
+        rules = [L.Rule('start', L.Seq((C('e0'), L.EOF())) if self.eof else C('e0'))]
+        for i, l in enumerate(self.layers):
+            e, x = f'e{i}', f'x{i}'
+            nxt = f'e{i + 1}' if i + 1 < self.nl else 'atom'
+            cut = [L.Cut()] if l['cut'] else []
+            k = l['kind']
+            if k == 'direct':
+                opts = [L.Seq((C(e), T(l['op']), *cut, C(nxt))), C(nxt)]
+            elif k == 'both':
+                opts = [L.Seq((C(e), T(l['op']), *cut, C(e))), C(nxt)]
+            elif k == 'twoops':
+                opts = [L.Seq((C(e), T(l['op']), *cut, C(nxt))), L.Seq((C(e), T(l['op2']), C(nxt))), C(nxt)]
+            elif k == 'aliased2':
+                rules.append(L.Rule(x, C(e)))
+                opts = [L.Seq((C(x), T(l['op']), *cut, C(nxt))), L.Seq((C(x), T(l['op2']), C(nxt))), C(nxt)]
+            else:
+                # the rule uses its own left operand in two alternatives sharing the prefix `e op1 m`
+                m = e if l['mid'] == 'self' else nxt
+                a, b = l['tern']
+                opts = [L.Seq((C(e), T(a), C(m), T(b), *cut, C(m))), L.Seq((C(e), T(a), C(m))), C(nxt)]
+            rules.append(L.Rule(e, L.Choice(tuple(opts))))
+        lcut = [L.Cut()] if self.list_cut else []
+        if self.list_style == 'closure':
+            lst = L.Seq((T('['), *lcut, L.Clo(C('e0')), T(']')))
+        elif self.list_style == 'pclosure':
+            lst = L.Seq((T('['), *lcut, L.PClo(C('e0')), T(']')))
+        else:
+            lst = L.Seq((T('['), *lcut, L.Join(T(','), C('e0'), False, True), T(']')))
+        atom = [lst]
+        if self.parens:
+            atom.append(L.Seq((T('('), C('e0'), T(')'))))
+        atom.append(C('num'))
+        rules.append(L.Rule('atom', L.Choice(tuple(atom))))
+        rules.append(L.Rule('num', L.Pat(r'\d+')))
+        return L.Grammar(rules)
+
+    # ---- sentences (lists of tokens)
+    def num(self, rng):
+        return [str(rng.randrange(100))] if rng.random() < 0.3 else [rng.choice('0123456789')]
+
+    def small(self, rng, level=0, depth=0):
+        """an expression of a few tokens that layer `level` derives (operators of lower layers only inside brackets)"""
+        if level >= self.nl:
+            k = rng.random()
+            if k < 0.7 or depth > 2:
+                return self.num(rng)
+            if k < 0.85 and self.parens:
+                return ['(', *self.small(rng, 0, depth + 1), ')']
+            return self.listof([self.small(rng, 0, depth + 1) for _ in range(rng.randrange(1, 4))])
+        l = self.layers[level]
+        if depth > 2 or rng.random() < 0.55:
+            return self.small(rng, level + 1, depth)
+        d = depth + 1
+        if l['kind'] == 'ternary':
+            a, b = l['tern']
+            m = level if l['mid'] == 'self' else level + 1
+            out = [*self.small(rng, level + 1, d), a, *self.small(rng, m, d)]
+            if rng.random() < 0.5:
+                out += [b, *self.small(rng, m, d)]
+            return out
+        op = l['op2'] if l['kind'] in ('twoops', 'aliased2') and rng.random() < 0.5 else l['op']
+        right = level if l['kind'] == 'both' else level + 1
+        return [*self.small(rng, level + (rng.random() < 0.5), d), op, *self.small(rng, right, d)]
+
+    def listof(self, elements):
+        out = ['[']
+        for i, el in enumerate(elements):
+            if i and self.list_style == 'gather':
+                out.append(',')
+            out += el
+        out.append(']')
+        return out
+
+    def elements(self, rng, n_tokens, deep=0):
+        """elements of a list with about n_tokens tokens; most elements are single numbers (one new position each)"""
+        out, size = [], 0
+        while size < n_tokens:
+            if deep:
+                d = rng.randrange(max(1, deep // 2), deep + 1)
+                el = ['('] * d + self.small(rng, 0, 2) + [')'] * d
+            else:
+                el = self.num(rng) if rng.random() < 0.7 else self.small(rng, 0, 1)
+            out.append(el)
+            size += len(el)
+        return out
+
+    def biglist(self, rng, n_tokens, form, bigpos, deep=0):
+        """a small expression one operand of which is a bracketed list of ~n_tokens tokens"""
+        big = self.listof(self.elements(rng, n_tokens, deep))
+        tern = [i for i, l in enumerate(self.layers) if l['kind'] == 'ternary']
+        if tern:
+            i = rng.choice(tern)
+            l = self.layers[i]
+            a, b = l['tern']
+            m = i if l['mid'] == 'self' else i + 1
+            ops = [self.small(rng, i + 1, 1), self.small(rng, m, 1), self.small(rng, m, 1)]
+            ops[bigpos] = big
+            out = [*ops[0], a, *ops[1]]
+            if form == 'long':
+                out += [b, *ops[2]]
+            return out
+        i = rng.randrange(self.nl)
+        l = self.layers[i]
+        ops = [self.small(rng, i + 1, 1), self.small(rng, i if l['kind'] == 'both' else i + 1, 1)]
+        ops[bigpos % 2] = big
+        return [*ops[0], l['op'], *ops[1]]
+
+    def chain(self, rng, n_tokens):
+        """operand (op operand)* over the layers whose right operand is the next layer (growth is iterative there);
+        bracketed operands are few (the nesting stays far from the recursion limit)"""
+        flat = [l for l in self.layers if l['kind'] in ('direct', 'twoops', 'aliased2')]
+        if not flat:
+            return None
+        out = self.num(rng)
+        while len(out) < n_tokens:
+            l = rng.choice(flat)
+            op = l['op2'] if l['kind'] != 'direct' and rng.random() < 0.5 else l['op']
+            k = rng.random()
+            if k < 0.04 and self.parens:
+                operand = ['(', *self.small(rng, 0, 1), ')']
+            elif k < 0.06:
+                operand = self.listof([self.small(rng, 0, 1) for _ in range(rng.randrange(1, 4))])
+            else:
+                operand = self.num(rng)
+            out += [op, *operand]
+        return out
+
+
+def long_stmt_grammar(rng):
+    """a list of statements whose alternatives share a rule-call prefix (retry shapes), not left recursive"""
+    C, T = L.Call, L.Tok
+    terms = rng.sample(['b', 'c', ';', '!', '.'], rng.choice([2, 3, 3, 4]))
+    pre = rng.choice([(C('x'),), (C('x'),), (C('x'), C('x')), (L.LA(C('x')), C('x'))])
+    alts = []
+    for i, t in enumerate(terms):
+        cut = [L.Cut()] if (i == len(terms) - 1 and rng.random() < 0.4) else []
+        alts.append(L.Seq((*pre, *cut, T(t))))
+    if rng.random() < 0.3:
+        alts.insert(rng.randrange(len(alts)), L.Seq((L.NLA(L.Seq((C('x'), T(terms[0])))), C('x'), T(terms[0]))))
+    xalts = [L.Seq((T('('), C('x'), T(')'))), L.Seq((T('['), L.Clo(C('x')), T(']'))), C('num')]
+    if rng.random() < 0.5:
+        xalts.insert(2, L.Seq((C('num'), T(':'), C('x'))))
+    rules = [L.Rule('start', L.Seq((L.Clo(C('stmt')), L.EOF()))),
+             L.Rule('stmt', L.Choice(tuple(alts)), rng.choice(DECOS[:3])),
+             L.Rule('x', L.Choice(tuple(xalts)), rng.choice(DECOS[:2])),
+             L.Rule('num', L.Pat(r'\d+'))]
+    g = L.Grammar(rules)
+    g.long_terms = terms
+    g.long_two = len(pre) == 2 and not isinstance(pre[0], L.LA)
+    return g
+
+
+def long_stmt_tokens(rng, g, n_tokens, one_big):
+    def x(depth=0):
+        k = rng.random()
+        if k < 0.6 or depth > 3:
+            return [rng.choice('0123456789')]
+        if k < 0.8:
+            d = rng.randrange(1, 12)
+            return ['('] * d + x(depth + 1) + [')'] * d
+        return ['[', *[t for _ in range(rng.randrange(0, 5)) for t in x(depth + 1)], ']']
+    terms = g.long_terms
+    out = []
+    if one_big:
+        big = ['[']
+        while len(big) < n_tokens:
+            big += x(1)
+        big.append(']')
+        out += big + (x() if g.long_two else []) + [terms[-1]]
+    while len(out) < n_tokens:
+        # mostly the LAST alternatives: the prefix is parsed, the terminator fails, the prefix is tried again
+        t = terms[-1] if rng.random() < 0.6 else rng.choice(terms)
+        out += x() + (x() if g.long_two else []) + [t]
+    return out
+
+
+def long_wrapped(g, item):
+    """the grammar with a new start rule that accepts a sequence of `item`s"""
+    top = L.Rule('vtlong', L.Seq((L.Clo(L.Call(item)), L.EOF())))
+    return L.Grammar([top] + list(g.rules), dict(g.directives), tuple(g.keywords))
+
+
+def layout(tokens, per_line):
+    """one line (per_line None) or a new line after every per_line tokens"""
+    if not per_line:
+        return ' '.join(tokens)
+    return '\n'.join(' '.join(tokens[i:i + per_line]) for i in range(0, len(tokens), per_line))
+
+
+class _End:
+    def __init__(self, s):
+        self.s = s
+
+
+def fingerprint(v):
+    """(digest, nodes, head) of an AST, computed without recursion (left-recursive chains are thousands of levels deep);
+    same equivalence as ref.canon: lists and tuples alike, dict keys in sorted order, parseinfo entries deleted"""
+    import hashlib
+    h = hashlib.blake2b(digest_size=12)
+    head, nodes = [], 0
+    stack = [v]
+    while stack:
+        x = stack.pop()
+        if isinstance(x, _End):
+            s = x.s
+        elif isinstance(x, dict):
+            keys = sorted(k for k in x if k not in ('parseinfo', '__parseinfo__'))
+            stack.append(_End('}'))
+            for k in reversed(keys):
+                stack.append(x[k])
+                stack.append(_End(repr(k) + ':'))
+            s = '{'
+        elif isinstance(x, (list, tuple)):
+            stack.append(_End(']'))
+            stack.extend(reversed(x))
+            s = '['
+        else:
+            s = repr(x)
+        nodes += 1
+        h.update(s.encode('utf-8', 'backslashreplace') + b'\0')
+        if len(head) < 40:
+            head.append(s)
+    return h.hexdigest(), nodes, ' '.join(head)
+
+
+class CountingSem:
+    """semantics-object probe for long parses: counts the action calls per (rule, position); the value is returned unchanged"""
+
+    def __init__(self):
+        self.__dict__['runs'] = collections.Counter()
+        self.__dict__['ctx'] = None
+
+    def set_context(self, ctx):
+        self.__dict__['ctx'] = ctx
+
+    def safe_context(self):
+        return {}
+
+    def __getattr__(self, name):
+        if name.startswith('__') or name in ('set_context', 'safe_context', '_default'):
+            raise AttributeError(name)
+        d = self.__dict__
+
+        def action(ast, *params, **kwparams):
+            pos = None
+            try:
+                pos = d['ctx'].pos
+            except Exception:  # noqa: BLE001
+                pass
+            d['runs'][(name, pos)] += 1
+            return ast
+        action.__name__ = name
+        return action
+
+
+def run_long(model, g, text, settings, probe):
+    """one long parse -> (outcome, Counter of (rule, end position) action runs | None, sink, evictions seen by the probe)"""
+    from tatsu.exceptions import FailedParse
+    sem = CountingSem() if probe else None
+    kw = dict(settings)
+    if sem is not None:
+        kw['semantics'] = sem
+    sink = Sink()
+    old = sys.stderr
+    sys.stderr = sink
+    ev0 = PROBE['evictions']
+    try:
+        try:
+            ast = model.parse(text, heart=StepHeart(step_budget(g, text)), **kw)
+            digest, nodes, head = fingerprint(ast)
+            out = ('ok', digest, nodes, head)
+        except FailedParse as e:
+            out = ('fail', type(e).__name__)
+        except RecursionError:
+            out = ('EXC', 'RecursionError')
+        except Exception as e:  # noqa: BLE001
+            out = ('EXC', type(e).__name__, str(e)[:100])
+    finally:
+        sys.stderr = old
+    return out, (sem.runs if sem is not None else None), sink, PROBE['evictions'] - ev0
+
+
+def check_long_case(acc, g, model, text, lrec, rot, origin, meta):
+    """the C04 relation on one long input: baseline against the cache configurations (and one rotating configuration)"""
+    n_lines = text.count('\n') + 1
+    base, runs_base, _, ev_base = run_long(model, g, text, {}, probe=True)
+    acc.count('long_cases')
+    acc.count('long_parses')
+    acc.count('long_lrec_cases' if lrec else 'long_nonlrec_cases')
+    acc.count('long_one_line' if n_lines == 1 else 'long_many_lines')
+    acc.count('long_kind:' + meta.get('kind', '?'))
+    acc.count('long_shape:' + meta.get('shape', '?'))
+    acc.peak('long_max_tokens', meta.get('tokens', 0))
+    acc.peak('long_max_lines', n_lines)
+    acc.count('long_evictions', ev_base)
+    if base == ('EXC', 'RecursionError'):
+        # how deep Python's stack goes is not the property's business (and tracing adds frames): counted, not compared
+        acc.count('long_recursion_limit_unjudged')
+        return
+    acc.count('long_accepted' if base[0] == 'ok' else 'long_failed' if base[0] == 'fail' else 'long_base_exc')
+    if base[0] == 'ok' and lrec:
+        acc.count('long_lrec_accepted')
+    # baseline + one tiny-cache configuration + one rotating configuration (+ memoization off where allowed)
+    configs = [('plm_1', {'perlinememos': 1}, True) if rot % 2 else ('plm_0.01', {'perlinememos': 0.01}, True)]
+    name, settings = LONG_ROTATING[rot % len(LONG_ROTATING)]
+    if settings.get('trace') and meta.get('tokens', 0) > 2500:
+        # (a trace of a long parse is tens of megabytes: traced on the shorter inputs of the family)
+        name, settings = LONG_ROTATING[-1]
+    configs.append((name, settings, False))
+    if not lrec:
+        configs.append(('memo_off', {'memoization': False}, True))
+    pressure = ev_base > 0
+    for name, settings, probe in configs:
+        out, runs, sink, evicted = run_long(model, g, text, settings, probe=probe)
+        acc.evaluations += 1
+        acc.count('long_parses')
+        if lrec:
+            acc.count('long_lrec_parses')
+        acc.count('long_cfg:' + name)
+        acc.count('trace_chars', sink.chars)
+        acc.count('trace_escapes', sink.escapes)
+        acc.count('long_evictions', evicted)
+        if out == ('EXC', 'RecursionError'):
+            acc.count('long_recursion_limit_unjudged')
+            continue
+        w = {'long': True, 'grammar': L.to_json(g), 'grammar_text': L.grammar_text(g), 'text': text, 'config': name,
+             'settings': settings, 'baseline': base, 'variant': out, 'origin': origin, 'meta': meta, 'rot': rot}
+        if out[:2] != base[:2]:
+            acc.violation(f'outcome/{name}/{relation(base, out)}/long-input',
+                          f'configuration {name} {settings} changed the outcome of a parse of a LONG input ({meta.get("tokens")} tokens on '
+                          f'{n_lines} line(s), family {meta.get("kind")}/{meta.get("shape")}): grammar {L.grammar_text(g).strip()!r} '
+                          f'input {text[:60]!r}... DEFAULT={base} VARIANT={out}', w)
+            continue
+        if runs is not None and runs_base is not None:
+            extra = sum(runs.values()) - sum(runs_base.values())
+            if name == 'memo_off':
+                # memoization only changes how many times rule bodies run (here: per (rule, end position))
+                more = runs_base - runs
+                if more:
+                    acc.violation('events/memo-on-not-subset/long-input',
+                                  f'with memoization ON a rule action ran at a (rule, position) more often than with memoization OFF: '
+                                  f'{list(more.items())[:3]} grammar {L.grammar_text(g).strip()!r} input {text[:60]!r}...', w)
+                if extra > 0:
+                    acc.count('long_memo_mattered')
+            elif extra > 0:
+                # the tiny cache made rule bodies run again that the default cache answered from memory
+                acc.count('long_tiny_cache_reexecuted_cases')
+                acc.count('long_tiny_cache_reexecutions', extra)
+                if lrec:
+                    acc.count('long_lrec_tiny_cache_reexecuted_cases')
+                pressure = True
+        if evicted:
+            pressure = True
+            if lrec:
+                acc.count('long_lrec_parses_with_evictions')
+    if pressure:
+        acc.count('long_cases_under_pressure')
+        acc.nontriv(L.grammar_text(g), text)
+
+
+LONG_OTHER = ['lrec_layered', 'retry_statements', 'nested', 'retry_random']
+LONG_BIG_SIZES = [1500, 1700, 2000, 2400, 1600, 1800]
+LONG_CHAIN_SIZES = [2000, 3000, 4500, 2500]
+LONG_CHEAP_SIZES = [1500, 2000, 3000, 2000, 6000, 1500, 2500, 2000]
+
+
+def long_accepting(rng, make, item_of, tries=8):
+    """one of the family's random grammars whose wrapped form accepts a short sequence of its own derivations (so that a
+    long sequence is parsed to its end and not given up at the first item) -> (g0, wrapped g, model, accepted pieces)"""
+    last = None
+    for _ in range(tries):
+        g0 = make(rng)
+        item = item_of(g0)
+        g = long_wrapped(g0, item)
+        try:
+            model = L.to_model(g, name='T')
+        except Exception:  # noqa: BLE001
+            continue
+        pieces = []
+        for _k in range(24):
+            d = G.derive(rng, g0, L.Call(item)).split()
+            if d and run_long(model, g, ' '.join(d), {}, False)[0][0] == 'ok':
+                pieces.append(d)
+        last = (g0, g, model, pieces)
+        if len(pieces) >= 6:
+            probe = [t for p in pieces[:12] for t in p]
+            if run_long(model, g, ' '.join(probe), {}, False)[0][0] == 'ok':
+                return last
+    return last
+
+
+def long_family(acc, desc, j):
+    """the j-th grammar of the long family of this shard, with its inputs: even j = a left-recursive expression grammar with
+    a shared-prefix layer, odd j = the other kinds in rotation"""
+    shard, seed = desc['shard'], desc['seed']
+    rng = random.Random(h64('C04', 'long', seed, shard, j))
+    r = shard + j // 2                         # rotation index of this (shard, slot)
+    kind = 'lrec_shared_prefix' if j % 2 == 0 else LONG_OTHER[r % len(LONG_OTHER)]
+    origin = {'shard': shard, 'long': j}
+    cases = []          # (tokens, tokens per line | None, shape)
+    per_line = lambda k: LONG_TOKENS_PER_LINE[(r + k) % len(LONG_TOKENS_PER_LINE)]    # noqa: E731
+    pick = lambda sizes, k: sizes[(r + k) % len(sizes)]                              # noqa: E731
+    model = None
+    if kind in ('lrec_shared_prefix', 'lrec_layered'):
+        spec = LongExpr(rng, force_ternary=kind == 'lrec_shared_prefix')
+        g = spec.grammar()
+        if any(l['kind'] == 'ternary' for l in spec.layers):
+            kind = 'lrec_shared_prefix'
+        # two big bracketed lists on many lines (the cache capacity follows the number of lines), a third input on ONE line
+        form, bigpos = LONG_BIG_FORMS[r % len(LONG_BIG_FORMS)]
+        cases.append((spec.biglist(rng, pick(LONG_BIG_SIZES, 0), form, bigpos), per_line(0), f'biglist:{form}:{bigpos}'))
+        if j % 2 == 0:
+            form, bigpos = LONG_BIG_FORMS[(r + 2) % len(LONG_BIG_FORMS)]
+            cases.append((spec.biglist(rng, pick(LONG_BIG_SIZES, 1), form, bigpos), per_line(3), f'biglist:{form}:{bigpos}'))
+        ch = spec.chain(rng, pick(LONG_CHAIN_SIZES, r // 2)) if (r % 2 == 0 or not spec.parens) else None
+        if ch is not None:
+            cases.append((ch, None, 'chain'))
+        elif spec.parens:
+            deep = rng.choice([6, 10, 14]) if spec.nl < 3 else rng.choice([4, 8])
+            cases.append((spec.biglist(rng, pick(LONG_BIG_SIZES, 2), form, bigpos % 2, deep=deep), None, 'deep_parens'))
+        else:
+            form, bigpos = LONG_BIG_FORMS[(r + 3) % len(LONG_BIG_FORMS)]
+            cases.append((spec.biglist(rng, pick(LONG_BIG_SIZES, 2), form, bigpos), None, f'biglist:{form}:{bigpos}'))
+        meta = {'kind': kind, 'layers': spec.describe()}
+    elif kind == 'retry_statements':
+        g = long_stmt_grammar(rng)
+        cases.append((long_stmt_tokens(rng, g, pick(LONG_CHEAP_SIZES, 0), r % 8 < 4), per_line(0),
+                      'statements+biglist' if r % 8 < 4 else 'statements'))
+        cases.append((long_stmt_tokens(rng, g, pick(LONG_CHEAP_SIZES, 1), r % 8 >= 4), None,
+                      'statements+biglist' if r % 8 >= 4 else 'statements'))
+        meta = {'kind': kind}
+    else:
+        nested = kind == 'nested'
+        got = long_accepting(rng, nested_grammar if nested else retry_grammar, lambda g0: 'r' if nested else g0.rules[0].name)
+        if got is None:
+            acc.count('long_build_failed')
+            return
+        g0, g, model, pieces = got
+        acc.count('long_accepting_grammar_found' if len(pieces) >= 6 else 'long_accepting_grammar_not_found')
+        pieces = pieces or [['1'] if nested else ['a']]
+        parts = []
+        n = pick(LONG_CHEAP_SIZES, 0)
+        while len(parts) < n:
+            parts += rng.choice(pieces)
+        cases.append((parts, per_line(0), 'items'))
+        if nested:
+            deep = []
+            n = pick(LONG_BIG_SIZES, 1)
+            while len(deep) < n:
+                d = rng.randrange(5, 40)
+                deep += ['('] * d + [rng.choice(['', '-']) + rng.choice('123')] + [')'] * d
+            cases.append((deep, None if (r // 4) % 2 else per_line(1), 'deep_parens'))
+        else:
+            cases.append((parts, None, 'items'))
+        meta = {'kind': kind}
+    if model is None:
+        try:
+            model = L.to_model(g, name='T')
+        except Exception as e:  # noqa: BLE001
+            acc.count('build_failed:' + type(e).__name__)
+            acc.count('long_build_failed')
+            return
+    lrec = bool(left_recursive_rules(g)[0])
+    acc.count('long_grammars')
+    for k, (tokens, pl, shape) in enumerate(cases):
+        text = layout(tokens, pl)
+        m = dict(meta, shape=shape.split(':')[0], shape_full=shape, tokens=len(tokens), per_line=pl)
+        check_long_case(acc, g, model, text, lrec, r + k, dict(origin, k=k), m)
+        if shape.startswith('biglist') and pl and meta['kind'] == 'lrec_shared_prefix':
+            acc.count('long_shared_prefix_' + shape + ':many_lines')
+    if shard == 0 and j == 0:
+        acc.sample({'long_grammar': L.grammar_text(g), 'inputs': [layout(t, pl)[:120] + ' ...' for t, pl, _s in cases],
+                    'tokens': [len(t) for t, _p, _s in cases]})
+
+
 def inputs_for(rng, g, n):
     texts = G.gen_inputs(rng, g, g.rules[0].name, n)
     # long single-line inputs: LRU pressure with perlinememos (capacity = lines * perlinememos)
@@ -368,6 +891,8 @@ def run_shard(desc, acc):
             check_case(acc, g, model, text, is_lrec, {'shard': desc['shard'], 'i': i})
         if i == 0:
             acc.sample({'grammar': L.grammar_text(g), 'inputs': texts, 'configs': [c[0] for c in CONFIGS]})
+    for j in range(N_LONG[desc.get('tier', 'quick')] if desc.get('long', True) else 0):
+        long_family(acc, desc, j)
     if probe_installed:
         for k, v in PROBE.items():
             acc.count('probe:' + k, v)
@@ -401,6 +926,12 @@ def replay(w, acc):
     g = L.from_json(w['grammar'])
     model = L.to_model(g, name='T')
     os.environ['FORCE_COLOR'] = '1'
+    if w.get('long'):
+        sys.setrecursionlimit(4000)
+        install_boundeddict_probe(acc)
+        check_long_case(acc, g, model, w['text'], bool(left_recursive_rules(g)[0]), w.get('rot', 0), {'mode': 'replay'},
+                        dict(w.get('meta') or {}))
+        return
     check_case(acc, g, model, w['text'], bool(left_recursive_rules(g)[0]), {'mode': 'replay'})
 
 
